@@ -40,7 +40,7 @@ def ensure_driver():
         raise ExtractError("cannot build plv-driver:\n" + r.stderr[-4000:])
 
 
-def extract(manifest_dir, out_dir, crate, all_targets=False, target_name="target", extra_args=()):
+def extract(manifest_dir, out_dir, crate, all_targets=False, target_name="target", extra_args=(), any_crate=False):
     """Compile `manifest_dir` with the exporter; return {file_basename: facts} for `crate`.
 
     Raises ExtractError if the crate does not compile or no fresh fact file appears."""
@@ -74,7 +74,8 @@ def extract(manifest_dir, out_dir, crate, all_targets=False, target_name="target
             fp = os.path.join(target, prof, ".fingerprint")
             if os.path.isdir(fp):
                 for d in os.listdir(fp):
-                    if d.startswith(crate + "-") or d.startswith("examples-") or d.startswith("plv"):
+                    if d.startswith((crate or "pricelevel") + "-") or d.startswith("pricelevel-") or d.startswith("examples-") or d.startswith("plv") \
+                            or d.startswith("tests-") or d.startswith("benches-"):
                         subprocess.run(["rm", "-rf", os.path.join(fp, d)])
         t0 = time.time()
         r = subprocess.run(cmd, env=env, capture_output=True, text=True, cwd=manifest_dir)
@@ -90,7 +91,7 @@ def extract(manifest_dir, out_dir, crate, all_targets=False, target_name="target
             d = json.load(fh)
         if d.get("nonce") != nonce:
             raise ExtractError("stale fact file " + f)
-        if d.get("crate") == crate:
+        if any_crate or d.get("crate") == crate:
             facts[os.path.basename(f)] = d
     if not facts:
         raise ExtractError("no fresh fact file for crate %s in %s (driver skipped?)\n%s" % (crate, out_dir, r.stderr[-2000:]))
